@@ -1381,8 +1381,14 @@ func (n *RegexNode) Format(buf *bytes.Buffer, indent string, onNewLine bool) {
 		onNewLine = true
 	}
 	writeIndent(buf, indent, onNewLine)
+	literal := n.Literal
+	if literal == "" && n.Regex != nil {
+		// The node was not parsed from source (built from a value or read from JSON):
+		// write the pattern, escaping the delimiter.
+		literal = strings.Replace(n.Regex.String(), "/", "\\/", -1)
+	}
 	buf.WriteByte('/')
-	buf.WriteString(n.Literal)
+	buf.WriteString(literal)
 	buf.WriteByte('/')
 }
 
